@@ -937,3 +937,78 @@ pub fn witness() {
         assert!(false, "VACUITY_WITNESS");
     }
 }
+
+// ================================================================================== F-OOC: out-of-contract arguments (C13 clause i)
+macro_rules! ooc {
+    ($name:ident, $st:expr, |$m:ident, $g:ident| $body:block) => {
+        #[kani::proof]
+        #[kani::unwind(10)]
+        pub fn $name() {
+            unsafe {
+                let (mut $m, $g) = $st;
+                end_reached!();
+                $body;
+                assert!(false, "RETURNED: out-of-contract call returned");
+            }
+        }
+    };
+}
+// @h props=C13,C02,C04 tier=quick group=ooc allow=(placeholder.message|assertion.failed).*in.function.bytes_mut::BytesMut::split_off must_fail=in.function.bytes_mut::BytesMut::split_off note=BytesMut::split_off(at>capacity)_vec_form
+ooc!(ooc_split_off_vec, st_vec(), |m, g| {
+    let at: usize = kani::any();
+    kani::assume(at > g.cap);
+    let _ = m.split_off(at);
+});
+// @h props=C13,C02,C04 tier=quick group=ooc allow=(placeholder.message|assertion.failed).*in.function.bytes_mut::BytesMut::split_off must_fail=in.function.bytes_mut::BytesMut::split_off note=BytesMut::split_off(at>capacity)_shared_form
+ooc!(ooc_split_off_arc, st_arc(false), |m, g| {
+    let at: usize = kani::any();
+    kani::assume(at > g.cap);
+    let _ = m.split_off(at);
+});
+// @h props=C13,C02,C04 tier=quick group=ooc allow=(placeholder.message|assertion.failed).*in.function.bytes_mut::BytesMut::split_to must_fail=in.function.bytes_mut::BytesMut::split_to note=BytesMut::split_to(at>len)_incl._len<at<=capacity
+ooc!(ooc_split_to, st_arc(false), |m, g| {
+    let at: usize = kani::any();
+    kani::assume(at > g.len);
+    let _ = m.split_to(at);
+});
+// @h props=C13,C02,C04 tier=quick group=ooc allow=(placeholder.message|assertion.failed).*in.function.<bytes_mut::BytesMut.as.buf::buf_impl::Buf>::advance must_fail=advance note=BytesMut::advance(n>len)_incl._len<n<=capacity_vec_form
+ooc!(ooc_advance_vec, st_vec(), |m, g| {
+    let n: usize = kani::any();
+    kani::assume(n > g.len);
+    m.advance(n);
+});
+// @h props=C13,C02,C04 tier=quick group=ooc allow=(placeholder.message|assertion.failed).*in.function.<bytes_mut::BytesMut.as.buf::buf_impl::Buf>::advance must_fail=advance note=BytesMut::advance(n>len)_shared_form
+ooc!(ooc_advance_arc, st_arc(false), |m, g| {
+    let n: usize = kani::any();
+    kani::assume(n > g.len);
+    m.advance(n);
+});
+// @h props=C13,C02,C04 tier=quick group=ooc allow=panic_advance|(placeholder.message|assertion.failed).*advance_mut must_fail=. note=BufMut::advance_mut(cnt>spare_capacity)
+ooc!(ooc_advance_mut, st_vec(), |m, g| {
+    let n: usize = kani::any();
+    kani::assume(n > g.cap - g.len);
+    BufMut::advance_mut(&mut m, n);
+});
+// @h props=C13,C02,C04 tier=quick group=ooc allow=overflow|capacity_overflow|raw_vec|handle_error must_fail=. note=BytesMut::resize(len_beyond_isize::MAX)
+ooc!(ooc_resize_huge, st_vec(), |m, g| {
+    let n: usize = kani::any();
+    kani::assume(n > isize::MAX as usize);
+    m.resize(n, 0);
+});
+
+// @h props=C13,C01 tier=quick flags=leak group=ooc note=documented_no-ops:truncate_beyond_len_and_failed_try_reclaim_leave_the_handle_bit-identical
+#[kani::proof]
+#[kani::unwind(10)]
+pub fn noop_truncate() {
+    unsafe {
+        let (mut m, g) = st_arc(false);
+        let n: usize = kani::any();
+        kani::assume(n >= g.len);
+        let (p, l, c, d) = (m.ptr, m.len, m.cap, m.data);
+        m.truncate(n);
+        assert!(m.ptr == p && m.len == l && m.cap == c && m.data == d && cnt(&g) == g.r);
+        content_is(&m, &g);
+        finish_arc(&g, 1);
+        end_reached!();
+    }
+}
